@@ -609,3 +609,290 @@ Theorem hubbard_atom_gf_of_hamiltonian :
     gf_value Qcanon.Qc QcD parts hub_z = Qcanon.Q2Qc (QArith_base.Qmake 2%Z 51%positive).
 Proof. exact SpineBridgeExamples.hub_gf_of_hamiltonian. Qed.
 Print Assumptions hubbard_atom_gf_of_hamiltonian.
+
+(** * Stage 4: the spine for the dynamical susceptibility chi_AB(z), A = c^+_a c_b, B = c^+_c c_d (C14)
+    (PV.SpineSusc: model pipeline [spine_susc]; PV.SpineSuscFull: from the parts to the full Fock space; PV.SpineSuscPartition: any
+    partition; PV.SpineSuscBridge: the partition of the symmetry-analysis model, the Hamiltonian layer; PV.SpineSuscExamples).
+
+    Pipeline (PV.SpineSusc.spine_susc S ED beta a b c d):
+      weights             := Thermal.dm_compute on the blocks                                              (C09's model)
+      parts of A and B    := HPart.fo_prepare + HPart.fop_dense for FQuad a b, FQuad c d, stored as Eigen compressed row-/column-major
+                             matrices keeping what HPart.prune keeps                                       (C10's model; C07's prepare)
+      block pairs         := Susceptibility::prepare = the merge walk GFPart.stripes over the two bimap views, retention test
+                             isRetained(Aleft) || isRetained(Aright) (SuscPart.susc_compute; the model of Properties_C14 / ThermalGen)
+      terms, ZeroPoleWeight, value := SuscPart.susc_part_compute / susc_value (zero-pole term  ZeroPoleWeight * beta  added where
+                             |z| < 1e-15)                                                                  (C14's model)
+    Right-hand side: EDSpec.susc beta tol E w A B z [|z| < 1e-15] on the FULL Fock space with the assembled eigenvalues and weights and
+    A = U^+ (c^+_a c_b) U, B = U^+ (c^+_c c_d) U; tol = the part's ReduceResonanceTolerance (a parameter: pairs of states with
+    |E_m - E_n| < tol contribute beta A_nm B_mn w_n at the zero test and nothing elsewhere -- W = 0 WITH DEGENERATE STATES INCLUDED,
+    for distinct states n <> m too).  Exact form of the other tolerances: MatrixElementTolerance drops exact zeros only, total comparator,
+    prune drops exact zeros only.
+    INTER-LAYER HYPOTHESES: [blocks_sound] / [assembled] (for two arbitrary operators: [susc_two_ops_blocks_sound]) discharged as in
+    Stage 2; [partition_ok], [op_ok] discharged on the bridged symmetry partition as in Stage 2b.  Nothing is left between the layers. *)
+From PV Require Import SuscPart SuscPartProofs SpineSusc SpineSuscFull SpineSuscPartition SpineSuscBridge SpineSuscExamples.
+
+(** from the parts to the full space (the C14 counterpart of C01's gf_blocks_eq_full): hypotheses blocks_sound / assembled *)
+Theorem susc_blocks_eq_full :
+  forall (K : Type) (NO : numops K) (kinv : K -> K),
+  ring_theory (n0 K NO) (n1 K NO) (nadd K NO) (nmul K NO) (nsub K NO) (nopp K NO) (@eq K) ->
+  (forall a b : K, ndiv K NO a b = nmul K NO a (kinv b)) ->
+  forall T : tols K,
+  (forall R : K, susc_relevant K NO (t_matrix_element K T) R = false -> R = n0 K NO) ->
+  (forall a b : K, susc_compare K NO (t_compare K T) a b = false -> susc_compare K NO (t_compare K T) b a = true) ->
+  forall (nb : nat) (dim : nat -> nat) (g : gf_in K) (Af Bf : nat -> nat -> nat -> nat -> K),
+  GFFullProofs.blocks_sound K NO nb dim g Af Bf ->
+  forall (E w : list K) (Am Bm : list (list K)),
+  GFFullProofs.assembled K NO nb dim g Af Bf E w Am Bm ->
+  forall (fixed lenient : bool) (beta z : K) (parts : list ((nat * nat) * spart_out K)),
+  susc_compute K NO fixed lenient T g = WDone parts ->
+  susc_value K NO parts None beta z = susc K NO beta (t_resonance K T) E w Am Bm z (z_is_zero K NO z).
+Proof. exact SpineSuscFull.susc_blocks_eq_full. Qed.
+Print Assumptions susc_blocks_eq_full.
+
+(** blocks_sound for the data the pipeline hands to Susceptibility, for two ARBITRARY field operators (Stage 2 had c_i, c^+_j) *)
+Theorem susc_two_ops_blocks_sound :
+  forall (K : Type) (NO : numops K),
+  ring_theory (n0 K NO) (n1 K NO) (nadd K NO) (nmul K NO) (nsub K NO) (nopp K NO) (@eq K) ->
+  nconj K NO (n0 K NO) = n0 K NO ->
+  forall (fb : bool) (eps : K),
+  nre_ltb K NO (nabs K NO (n1 K NO)) eps = false -> nre_ltb K NO (nabs K NO (nopp K NO (n1 K NO))) eps = false ->
+  nre_ltb K NO eps (nabs K NO (n1 K NO)) = true -> nre_ltb K NO eps (nabs K NO (nopp K NO (n1 K NO))) = true ->
+  forall reference prec : K,
+  (forall x : K, keep_entry K NO reference prec x = false -> x = n0 K NO) ->
+  forall (S : classification) (ED : eigdata K), partition_ok S -> eig_ok K S ED ->
+  forall D : list (Thermal.dmpart K), dm_ok K NO S D ->
+  forall (oA oB : fop) (prsA prsB : list (nat * nat)),
+  op_ok K NO fb eps S oA prsA -> op_ok K NO fb eps S oB prsB ->
+  forall aparts bparts : list ((nat * nat) * mat K),
+  op_compute K NO fb eps S ED oA = Done aparts -> op_compute K NO fb eps S ED oB = Done bparts ->
+  GFFullProofs.blocks_sound K NO (length (sc_states S)) (block_size S)
+    (g2_all_retained K NO reference prec S ED D aparts bparts) (Af K NO S ED oA) (Bf K NO S ED oB).
+Proof. exact SpineSuscPartition.two_ops_blocks_sound. Qed.
+Print Assumptions susc_two_ops_blocks_sound.
+
+(** any partition satisfying C07's conclusions *)
+Theorem spine_susc_partition :
+  forall (K : Type) (NO : numops K) (kinv : K -> K),
+  field_theory (n0 K NO) (n1 K NO) (nadd K NO) (nmul K NO) (nsub K NO) (nopp K NO) (ndiv K NO) kinv (@eq K) ->
+  nconj K NO (n0 K NO) = n0 K NO ->
+  forall (fb : bool) (eps : K),
+  nre_ltb K NO (nabs K NO (n1 K NO)) eps = false -> nre_ltb K NO (nabs K NO (nopp K NO (n1 K NO))) eps = false ->
+  nre_ltb K NO eps (nabs K NO (n1 K NO)) = true -> nre_ltb K NO eps (nabs K NO (nopp K NO (n1 K NO))) = true ->
+  forall reference prec : K,
+  (forall x, keep_entry K NO reference prec x = false -> x = n0 K NO) ->
+  forall T : tols K,
+  (forall R, susc_relevant K NO (t_matrix_element K T) R = false -> R = n0 K NO) ->
+  (forall a b, susc_compare K NO (t_compare K T) a b = false -> susc_compare K NO (t_compare K T) b a = true) ->
+  forall (S : classification) (ED : eigdata K) (a b c d : nat) (pairsA pairsB : list (nat * nat)),
+  partition_ok S ->                                       (* C07_partition_exact *)
+  eig_ok K S ED ->                                        (* shapes *)
+  op_ok K NO fb eps S (FQuad a b) pairsA ->               (* C07_single_target for c^+_a c_b *)
+  op_ok K NO fb eps S (FQuad c d) pairsB ->               (* C07_single_target for c^+_c c_d *)
+  forall (fixed lenient : bool) (beta z : K) (parts : list ((nat * nat) * spart_out K)),
+  spine_susc K NO fb eps reference prec T fixed lenient S ED beta a b c d = Done (WDone parts) ->
+  exists D, spine_dm K NO beta S ED = Done D /\
+    spine_susc_value K NO parts beta z =
+    susc K NO beta (t_resonance K T) (assembled_E K ED) (assembled_w K D)
+       (rotate K NO (state_size S) (assembled_U K NO S ED) (poly_matrix K NO (sc_M S) (p_n_offdiag K (n1 K NO) a b)))
+       (rotate K NO (state_size S) (assembled_U K NO S ED) (poly_matrix K NO (sc_M S) (p_n_offdiag K (n1 K NO) c d)))
+       z (z_is_zero K NO z).
+Proof.
+  exact (fun K NO kinv Kf => SpineSuscPartition.spine_susc_partition K NO kinv (F_R Kf) (Fdiv_def Kf)).
+Qed.
+Print Assumptions spine_susc_partition.
+
+Theorem spine_susc_partition_total :
+  forall (K : Type) (NO : numops K),
+  ring_theory (n0 K NO) (n1 K NO) (nadd K NO) (nmul K NO) (nsub K NO) (nopp K NO) (@eq K) ->
+  nconj K NO (n0 K NO) = n0 K NO ->
+  forall (fb : bool) (eps : K),
+  nre_ltb K NO (nabs K NO (n1 K NO)) eps = false -> nre_ltb K NO (nabs K NO (nopp K NO (n1 K NO))) eps = false ->
+  nre_ltb K NO eps (nabs K NO (n1 K NO)) = true -> nre_ltb K NO eps (nabs K NO (nopp K NO (n1 K NO))) = true ->
+  forall reference prec : K,
+  (forall x, keep_entry K NO reference prec x = false -> x = n0 K NO) ->
+  forall (T : tols K) (S : classification) (ED : eigdata K) (a b c d : nat) (pairsA pairsB : list (nat * nat)),
+  partition_ok S -> eig_ok K S ED -> op_ok K NO fb eps S (FQuad a b) pairsA -> op_ok K NO fb eps S (FQuad c d) pairsB ->
+  forall (lenient : bool) (beta : K) D, spine_dm K NO beta S ED = Done D ->
+  exists parts, spine_susc K NO fb eps reference prec T true lenient S ED beta a b c d = Done (WDone parts).
+Proof. exact SpineSuscPartition.spine_susc_partition_total. Qed.
+Print Assumptions spine_susc_partition_total.
+
+(** THE SUSCEPTIBILITY SPINE on the partition produced by the symmetry-analysis model: no inter-layer hypothesis *)
+Theorem spine_susc_symmetry_partition :
+  forall (KS : Type) (s0 s1 : KS) (sadd smul ssub : KS -> KS -> KS) (sopp : KS -> KS) (szero : KS -> bool),
+  ring_ok KS s0 s1 sadd smul ssub sopp szero -> s1 <> s0 ->
+  forall (K : Type) (NO : numops K) (kinv : K -> K),
+  ring_theory (n0 K NO) (n1 K NO) (nadd K NO) (nmul K NO) (nsub K NO) (nopp K NO) (@eq K) ->
+  (forall a b : K, ndiv K NO a b = nmul K NO a (kinv b)) ->
+  nconj K NO (n0 K NO) = n0 K NO ->
+  forall (fb : bool) (eps : K),
+  nre_ltb K NO (nabs K NO (n1 K NO)) eps = false -> nre_ltb K NO (nabs K NO (nopp K NO (n1 K NO))) eps = false ->
+  nre_ltb K NO eps (nabs K NO (n1 K NO)) = true -> nre_ltb K NO eps (nabs K NO (nopp K NO (n1 K NO))) = true ->
+  forall reference prec : K,
+  (forall x : K, keep_entry K NO reference prec x = false -> x = n0 K NO) ->
+  forall T : tols K,
+  (forall R : K, susc_relevant K NO (t_matrix_element K T) R = false -> R = n0 K NO) ->
+  (forall a b : K, susc_compare K NO (t_compare K T) a b = false -> susc_compare K NO (t_compare K T) b a = true) ->
+  forall (N : nat) (ops : list (poly KS)) (c : Symm.qclass KS),
+  Forall (poly_in_range KS N) ops ->
+  Symm.sc_compute KS s0 sadd ssub sopp szero N ops = Done c ->
+  Forall (SymmProofs.uniform_shift KS s0 s1 sadd smul sopp N) ops ->
+  forall (ED : eigdata K) (a b c' d : nat), a < N -> b < N -> c' < N -> d < N ->
+  eig_ok K (bridge N c) ED ->                                          (* shapes of the per-block eigen-data *)
+  forall (fixed lenient : bool) (beta z : K) (parts : list ((nat * nat) * spart_out K)),
+  spine_susc K NO fb eps reference prec T fixed lenient (bridge N c) ED beta a b c' d = Done (WDone parts) ->
+  exists D : list (Thermal.dmpart K),
+    spine_dm K NO beta (bridge N c) ED = Done D /\
+    spine_susc_value K NO parts beta z =
+    susc K NO beta (t_resonance K T) (assembled_E K ED) (assembled_w K D)
+       (rotate K NO (Nat.pow 2 N) (assembled_U K NO (bridge N c) ED) (poly_matrix K NO N (p_n_offdiag K (n1 K NO) a b)))
+       (rotate K NO (Nat.pow 2 N) (assembled_U K NO (bridge N c) ED) (poly_matrix K NO N (p_n_offdiag K (n1 K NO) c' d)))
+       z (z_is_zero K NO z).
+Proof. exact SpineSuscBridge.spine_susc_symmetry. Qed.
+Print Assumptions spine_susc_symmetry_partition.
+
+Theorem spine_susc_symmetry_partition_total :
+  forall (KS : Type) (s0 s1 : KS) (sadd smul ssub : KS -> KS -> KS) (sopp : KS -> KS) (szero : KS -> bool),
+  ring_ok KS s0 s1 sadd smul ssub sopp szero -> s1 <> s0 ->
+  forall (K : Type) (NO : numops K),
+  ring_theory (n0 K NO) (n1 K NO) (nadd K NO) (nmul K NO) (nsub K NO) (nopp K NO) (@eq K) ->
+  nconj K NO (n0 K NO) = n0 K NO ->
+  forall (fb : bool) (eps : K),
+  nre_ltb K NO (nabs K NO (n1 K NO)) eps = false -> nre_ltb K NO (nabs K NO (nopp K NO (n1 K NO))) eps = false ->
+  nre_ltb K NO eps (nabs K NO (n1 K NO)) = true -> nre_ltb K NO eps (nabs K NO (nopp K NO (n1 K NO))) = true ->
+  forall reference prec : K,
+  (forall x : K, keep_entry K NO reference prec x = false -> x = n0 K NO) ->
+  forall (T : tols K) (N : nat) (ops : list (poly KS)) (c : Symm.qclass KS),
+  Forall (poly_in_range KS N) ops ->
+  Symm.sc_compute KS s0 sadd ssub sopp szero N ops = Done c ->
+  Forall (SymmProofs.uniform_shift KS s0 s1 sadd smul sopp N) ops ->
+  forall (ED : eigdata K) (a b c' d : nat), a < N -> b < N -> c' < N -> d < N -> eig_ok K (bridge N c) ED ->
+  forall (lenient : bool) (beta : K) (D : list (Thermal.dmpart K)),
+  spine_dm K NO beta (bridge N c) ED = Done D ->
+  exists parts, spine_susc K NO fb eps reference prec T true lenient (bridge N c) ED beta a b c' d = Done (WDone parts).
+Proof. exact SpineSuscBridge.spine_susc_symmetry_total. Qed.
+Print Assumptions spine_susc_symmetry_partition_total.
+
+(** ... on the operators ACCEPTED by the symmetry analysis of a Hamiltonian polynomial h *)
+Theorem spine_susc_symmetry_analysis :
+  forall (KS : Type) (s0 s1 : KS) (sadd smul ssub : KS -> KS -> KS) (sopp : KS -> KS) (szero : KS -> bool) (shalf : KS),
+  ring_ok KS s0 s1 sadd smul ssub sopp szero -> s1 <> s0 ->
+  forall (K : Type) (NO : numops K) (kinv : K -> K),
+  ring_theory (n0 K NO) (n1 K NO) (nadd K NO) (nmul K NO) (nsub K NO) (nopp K NO) (@eq K) ->
+  (forall a b : K, ndiv K NO a b = nmul K NO a (kinv b)) ->
+  nconj K NO (n0 K NO) = n0 K NO ->
+  forall (fb : bool) (eps : K),
+  nre_ltb K NO (nabs K NO (n1 K NO)) eps = false -> nre_ltb K NO (nabs K NO (nopp K NO (n1 K NO))) eps = false ->
+  nre_ltb K NO eps (nabs K NO (n1 K NO)) = true -> nre_ltb K NO eps (nabs K NO (nopp K NO (n1 K NO))) = true ->
+  forall reference prec : K,
+  (forall x : K, keep_entry K NO reference prec x = false -> x = n0 K NO) ->
+  forall T : tols K,
+  (forall R : K, susc_relevant K NO (t_matrix_element K T) R = false -> R = n0 K NO) ->
+  (forall a b : K, susc_compare K NO (t_compare K T) a b = false -> susc_compare K NO (t_compare K T) b a = true) ->
+  forall (fz sf : bool) (mode : Symm.symm_mode KS) (spins : list nat) (h : poly KS) (sy : Symm.symm KS),
+  mode_uniform KS sf mode (length spins) ->
+  Symm.symmetrize KS s0 s1 sadd smul ssub sopp szero shalf fz sf mode spins h = Done sy ->
+  exists c, Symm.sc_compute KS s0 sadd ssub sopp szero (length spins) (Symm.sy_ops sy) = Done c /\
+    forall (ED : eigdata K) (a b c' d : nat), a < length spins -> b < length spins -> c' < length spins -> d < length spins ->
+    eig_ok K (bridge (length spins) c) ED ->
+    forall (fixed lenient : bool) (beta z : K) (parts : list ((nat * nat) * spart_out K)),
+    spine_susc K NO fb eps reference prec T fixed lenient (bridge (length spins) c) ED beta a b c' d = Done (WDone parts) ->
+    exists D, spine_dm K NO beta (bridge (length spins) c) ED = Done D /\
+      spine_susc_value K NO parts beta z =
+      susc K NO beta (t_resonance K T) (assembled_E K ED) (assembled_w K D)
+         (rotate K NO (Nat.pow 2 (length spins)) (assembled_U K NO (bridge (length spins) c) ED)
+                 (poly_matrix K NO (length spins) (p_n_offdiag K (n1 K NO) a b)))
+         (rotate K NO (Nat.pow 2 (length spins)) (assembled_U K NO (bridge (length spins) c) ED)
+                 (poly_matrix K NO (length spins) (p_n_offdiag K (n1 K NO) c' d)))
+         z (z_is_zero K NO z).
+Proof. exact SpineSuscBridge.spine_susc_symmetry_analysis. Qed.
+Print Assumptions spine_susc_symmetry_analysis.
+
+(** from the Hamiltonian polynomial (one number type, exact zero tests): the analysis returns a classification, the model of
+    Hamiltonian::prepare the blocks, and for per-block eigen-data satisfying the exact certificate for those blocks the assembled
+    (E, U) is an exact eigen-system of poly_matrix h and the pipeline's value is EDSpec.susc of that eigen-system *)
+Theorem spine_susc_of_hamiltonian :
+  forall (K : Type) (NO : numops K) (kinv : K -> K),
+  field_theory (n0 K NO) (n1 K NO) (nadd K NO) (nmul K NO) (nsub K NO) (nopp K NO) (ndiv K NO) kinv (@eq K) ->
+  forall (kzero : K -> bool) (khalf : K),
+  (forall x : K, kzero x = true <-> x = n0 K NO) ->
+  nconj K NO (n0 K NO) = n0 K NO ->
+  forall (fb : bool) (eps : K),
+  nre_ltb K NO (nabs K NO (n1 K NO)) eps = false -> nre_ltb K NO (nabs K NO (nopp K NO (n1 K NO))) eps = false ->
+  nre_ltb K NO eps (nabs K NO (n1 K NO)) = true -> nre_ltb K NO eps (nabs K NO (nopp K NO (n1 K NO))) = true ->
+  (forall x : K, is_zero K NO eps x = true <-> x = n0 K NO) ->
+  forall reference prec : K,
+  (forall x : K, keep_entry K NO reference prec x = false -> x = n0 K NO) ->
+  forall T : tols K,
+  (forall R : K, susc_relevant K NO (t_matrix_element K T) R = false -> R = n0 K NO) ->
+  (forall a b : K, susc_compare K NO (t_compare K T) a b = false -> susc_compare K NO (t_compare K T) b a = true) ->
+  forall (fz sf : bool) (mode : Symm.symm_mode K) (spins : list nat) (h : poly K) (sy : Symm.symm K),
+  poly_in_range K (length spins) h ->
+  mode_uniform K sf mode (length spins) ->
+  Symm.symmetrize K (n0 K NO) (n1 K NO) (nadd K NO) (nmul K NO) (nsub K NO) (nopp K NO) kzero khalf fz sf mode spins h = Done sy ->
+  exists c Hs,
+    Symm.sc_compute K (n0 K NO) (nadd K NO) (nsub K NO) (nopp K NO) kzero (length spins) (Symm.sy_ops sy) = Done c /\
+    spine_hblocks K NO fb eps (bridge (length spins) c) h = Done Hs /\
+    forall ED : eigdata K, eig_ok K (bridge (length spins) c) ED ->
+    (forall b, b < length (sc_states (bridge (length spins) c)) ->
+       eigensystem K NO (block_size (bridge (length spins) c) b) (nth b Hs []) (Uof K ED b) (Eof K ED b)) ->
+    eigensystem K NO (Nat.pow 2 (length spins)) (poly_matrix K NO (length spins) h)
+                (assembled_U K NO (bridge (length spins) c) ED) (assembled_E K ED) /\
+    forall a b c' d : nat, a < length spins -> b < length spins -> c' < length spins -> d < length spins ->
+    forall (fixed lenient : bool) (beta z : K) (parts : list ((nat * nat) * spart_out K)),
+    spine_susc K NO fb eps reference prec T fixed lenient (bridge (length spins) c) ED beta a b c' d = Done (WDone parts) ->
+    exists D, spine_dm K NO beta (bridge (length spins) c) ED = Done D /\
+      spine_susc_value K NO parts beta z =
+      susc K NO beta (t_resonance K T) (assembled_E K ED) (assembled_w K D)
+         (rotate K NO (Nat.pow 2 (length spins)) (assembled_U K NO (bridge (length spins) c) ED)
+                 (poly_matrix K NO (length spins) (p_n_offdiag K (n1 K NO) a b)))
+         (rotate K NO (Nat.pow 2 (length spins)) (assembled_U K NO (bridge (length spins) c) ED)
+                 (poly_matrix K NO (length spins) (p_n_offdiag K (n1 K NO) c' d)))
+         z (z_is_zero K NO z).
+Proof. exact SpineSuscBridge.spine_susc_of_hamiltonian. Qed.
+Print Assumptions spine_susc_of_hamiltonian.
+
+(** * Non-vacuity: the spin-flip susceptibility of the Hubbard atom, A = c^+_0 c_1, B = c^+_1 c_0: the only contributing pair of
+    states is (|up>, |dn>), two DIFFERENT states of EQUAL energy; partition produced by the symmetry-analysis model *)
+Theorem hubbard_atom_susc_symmetry_spine :
+  exists sy c parts D,
+    hub_sy_run = Done sy /\ qc_sc_compute 2 (Symm.sy_ops sy) = Done c /\
+    hub_susc_run_symm = Done (WDone parts) /\ spine_dm Qcanon.Qc QcS (n1 _ QcS) (bridge 2 c) ED4 = Done D /\
+    forall z : Qcanon.Qc,
+    spine_susc_value Qcanon.Qc QcS parts (n1 _ QcS) z =
+    susc Qcanon.Qc QcS (n1 _ QcS) (t_resonance _ T0) (assembled_E Qcanon.Qc ED4) (assembled_w Qcanon.Qc D)
+       (rotate Qcanon.Qc QcS 4 (assembled_U Qcanon.Qc QcS (bridge 2 c) ED4) (poly_matrix Qcanon.Qc QcS 2 (p_n_offdiag Qcanon.Qc (n1 _ QcS) 0 1)))
+       (rotate Qcanon.Qc QcS 4 (assembled_U Qcanon.Qc QcS (bridge 2 c) ED4) (poly_matrix Qcanon.Qc QcS 2 (p_n_offdiag Qcanon.Qc (n1 _ QcS) 1 0)))
+       z (z_is_zero Qcanon.Qc QcS z).
+Proof. exact SpineSuscExamples.hub_susc_spine_symmetry. Qed.
+Print Assumptions hubbard_atom_susc_symmetry_spine.
+
+(** beta * w_up = 6/17 at z = 0 (the zero test fires), 0 at z = 1/2; one part, block pair (1, 2), NO stored term,
+    ZeroPoleWeight = w_up: the whole value is the degenerate zero-pole contribution *)
+Theorem hubbard_atom_susc_zero_pole_value :
+  hub_susc_value_symm (n0 _ QcS) = Qcanon.Q2Qc (QArith_base.Qmake 6%Z 17%positive) /\ hub_susc_value_symm (n0 _ QcS) <> n0 _ QcS /\
+  z_is_zero Qcanon.Qc QcS (n0 _ QcS) = true /\
+  hub_susc_value_symm hub_z = n0 _ QcS /\ z_is_zero Qcanon.Qc QcS hub_z = false /\
+  match hub_susc_run_symm with
+  | Done (WDone parts) => map fst parts = [(1, 2)] /\ map (fun p => so_terms Qcanon.Qc (snd p)) parts = [[]] /\
+                          map (fun p => so_zero Qcanon.Qc (snd p)) parts = [Qcanon.Q2Qc (QArith_base.Qmake 6%Z 17%positive)]
+  | _ => False
+  end.
+Proof. exact SpineSuscExamples.hub_susc_value_zero_pole. Qed.
+Print Assumptions hubbard_atom_susc_zero_pole_value.
+
+(** every hypothesis of [spine_susc_of_hamiltonian] instantiated (rationals with the discrete absolute value, eps = 1/2) *)
+Theorem hubbard_atom_susc_of_hamiltonian :
+  exists c Hs parts D,
+    hub_class_run = Done c /\ spine_hblocks Qcanon.Qc QcD true eps_half (bridge 2 c) hub_h = Done Hs /\
+    (forall b, b < 4 -> eigensystem Qcanon.Qc QcD (block_size (bridge 2 c) b) (nth b Hs []) (Uof Qcanon.Qc ED4 b) (Eof Qcanon.Qc ED4 b)) /\
+    eigensystem Qcanon.Qc QcD 4 (poly_matrix Qcanon.Qc QcD 2 hub_h) (assembled_U Qcanon.Qc QcD (bridge 2 c) ED4) (assembled_E Qcanon.Qc ED4) /\
+    hub_susc_run_D c = Done (WDone parts) /\ spine_dm Qcanon.Qc QcD (n1 _ QcD) (bridge 2 c) ED4 = Done D /\
+    spine_susc_value Qcanon.Qc QcD parts (n1 _ QcD) (n0 _ QcD) =
+    susc Qcanon.Qc QcD (n1 _ QcD) eps_half (assembled_E Qcanon.Qc ED4) (assembled_w Qcanon.Qc D)
+       (rotate Qcanon.Qc QcD 4 (assembled_U Qcanon.Qc QcD (bridge 2 c) ED4) (poly_matrix Qcanon.Qc QcD 2 (p_n_offdiag Qcanon.Qc (n1 _ QcD) 0 1)))
+       (rotate Qcanon.Qc QcD 4 (assembled_U Qcanon.Qc QcD (bridge 2 c) ED4) (poly_matrix Qcanon.Qc QcD 2 (p_n_offdiag Qcanon.Qc (n1 _ QcD) 1 0)))
+       (n0 _ QcD) true /\
+    spine_susc_value Qcanon.Qc QcD parts (n1 _ QcD) (n0 _ QcD) = Qcanon.Q2Qc (QArith_base.Qmake 6%Z 17%positive).
+Proof. exact SpineSuscExamples.hub_susc_of_hamiltonian. Qed.
+Print Assumptions hubbard_atom_susc_of_hamiltonian.
